@@ -5,6 +5,7 @@ import subprocess
 from concurrent.futures import ThreadPoolExecutor
 
 from .run import BUILD, VERIF
+from . import extract
 
 REPO = os.environ.get('VP_REPO', '/repo')
 
@@ -22,7 +23,10 @@ def build_objects(sources, flags, tag):
 
     def one(src):
         obj = os.path.join(out, src.replace('/', '_') + '.o')
-        cmd = ['g++', '-std=c++17', '-w', '-c', os.path.join(REPO, src), '-o', obj,
+        path = os.path.join(REPO, src)
+        if src in extract.GENERATED:       # build products (git-ignored): regenerated from the current generator, not read from a stale copy
+            path = os.path.join(extract.generated_dir(), extract.GENERATED[src])
+        cmd = ['g++', '-std=c++17', '-w', '-c', path, '-o', obj,
                '-I', os.path.join(REPO, 'include'), '-I', os.path.join(REPO, 'src'),
                '-I', os.path.join(REPO, 'nl-writer2/include')] + DEFS + flags
         p = subprocess.run(cmd, capture_output=True, text=True)
